@@ -48,6 +48,8 @@ fn main() {
     }};
   }
   let code = match id.as_str() {
+    "C01" => dispatch!(props::c01::C01),
+    "C02" => dispatch!(props::c01::C02),
     "C03" => dispatch!(props::c03::C03),
     "C04" => dispatch!(props::c04::C04),
     "C07" => dispatch!(props::c07::C07),
